@@ -1,8 +1,7 @@
 /-
   Rrss.Lemmas.TextRecaseExamples — data and kernel evaluations for the non-vacuity examples of
   Rrss/Thm/C15Lex.lean (ASCII tables `Lexer.asciiOps`, integer numbers, the transcribed keyword
-  table), the decidable form of the side condition on poetic string literals, and the witnesses of
-  the re-casings that are NOT harmless.
+  table), the decidable form of the side condition on poetic string literals.
 -/
 import Rrss.Lemmas.TextRecase
 set_option linter.unusedSectionVars false
@@ -54,10 +53,10 @@ theorem sayFixed_decomp {s s' : Str} {l : List (Tok N)} (h : SayFixed s s' l) :
 def exText : Str :=
   str% "Put 5 into my heart\nTommy Lee's \"ok\"\nShout my heart\nShout Tommy Lee\n"
 
-/-- the same text with many letters in the other case (the contents of the string literal, the
-    `'s`, and the capitalisation of the word tokens `heart`, `Tommy`, `Lee` kept) -/
+/-- the same text with many letters in the other case, `'s` included (the contents of the string
+    literal and the capitalisation of the word tokens `heart`, `Tommy`, `Lee` kept) -/
 def exTextRecased : Str :=
-  str% "PUT 5 iNTo MY hEART\nTOMMY LEE's \"ok\"\nsHOUT My heART\nSHOUT TommY LeE\n"
+  str% "PUT 5 iNTo MY hEART\nTOMMY LEE'S \"ok\"\nsHOUT My heART\nSHOUT TommY LeE\n"
 
 /-- a poetic string literal -/
 def exSay : Str := str% "Tommy says Hello World\nShout Tommy\n"
